@@ -343,7 +343,7 @@ class Cluster:
 
 
 def run_cluster(job, hosts: int, workers: int, *, max_steps: int = 400_000, horizon_s: float | None = None, on_cluster: Callable | None = None, gpu: dict | None = None,
-                deviations: dict | None = None) -> dict:
+                deviations: dict | None = None, wind_down_s: float = 30.0) -> dict:
     """One execution of the whole runtime. Returns a result dict (outputs or exception, leftovers, steps, virtual time)."""
     from cascade.controller.impl import run as ctrl_run
     from cascade.scheduler.graph import precompute
@@ -402,7 +402,7 @@ def run_cluster(job, hosts: int, workers: int, *, max_steps: int = 400_000, hori
     result["phase1"] = end
     # phase 2: executors wind down on their own (grace: 30 virtual seconds after the controller ended)
     if end == "done":
-        end2 = S.run(lambda: all(p.dead for p in execs), max_steps, S.now_ns + int(30e9))
+        end2 = S.run(lambda: all(p.dead for p in execs), max_steps, S.now_ns + int(wind_down_s * 1e9))
         result["phase2"] = end2
     result["steps"] = S.steps
     result["virtual_s"] = (S.now_ns - T0) / 1e9
